@@ -16,6 +16,7 @@ CONSTANTS
   NilPacketSock = TRUE
   CloseWaits = TRUE
   ErrAware = TRUE
+  RecheckAfterRecv = FALSE
   AcceptErrors = 1
 INVARIANTS DumpInv
 CHECK_DEADLOCK FALSE
